@@ -229,6 +229,10 @@ def py_oracle(ops, outs):
                         fails.append((i, "restored-state-differs"))
                     if any(e[0] != "u" or e[1] != "0" or e[2] != "0" for e in elems):
                         fails.append((i, "restored-element-not-pristine"))
+                    # a native retained element is owned by the user: only then does it count, and can
+                    # it be dropped, once it is handed back to the send queue
+                    if smq not in (None, "-") and any(x.split(":")[2:3] not in ([], ["u"]) for x in smq.split(",")):
+                        fails.append((i, "restored-retained-element-not-user-owned"))
         if res.startswith("blob ") and res != "blob null" and smst != "none":
             b = unhx(res[5:])
             want = py_parse(b)
